@@ -4,6 +4,11 @@ manifest is always valid)."""
 import json, sys
 
 CHECKS = {
+ "C03": dict(
+   text="Layering, guard and copy discipline that child-trie isolation rests on, decided on every path: the layered store never writes its parent level (deletes only under PropagateDeletes); a merge replays changes only after the start-root comparison succeeded and only from a direct child; the memory store keeps CloneNode() copies under the given key; and no trie operation writes in place to node memory that derives from the store, the node cache, a pending change or a caller (interprocedural source-label dataflow).",
+   note="Does not decide equality of parent and child views after arbitrary histories. Constructors are modelled as returning fresh objects (slices handed to them are assumed not written later through the new node); aliasing is label-based, not a points-to analysis. One named exception: re-stamping the origin of replayed child nodes in mergeChanges (idempotent at equal versions).",
+   technique="call-site effect confinement, path-sensitive guard checks, interprocedural provenance dataflow (FRESH) on go/ssa",
+   ref="DESIGN.md section 5 C03"),
  "C16": dict(
    text="Race freedom of one state trie by guarded-by discipline, decided for every call path from the trie operations named in the property and the exported store/collector methods: root, deleteNodes, missing-key list, store maps, level links and collector maps only under their owner's mutex in the required mode (writes need the write lock; goroutine bodies start with nothing held); constructor-only fields never rewritten; Insert/Delete/MergeChanges/MergeDB are single critical sections (one write-lock acquisition dominating every root access, released by defer).",
    note="Does not decide linearizability of histories (needs executions). SetVersion is outside the property's operation set and is not an entry. Locks are identified per (owner type, field). Trusted: go/ssa; own CHA call graph with function values resolved through parameters.",
